@@ -9,16 +9,13 @@ open Cutadapt Cutadapt.Kmer Cutadapt.Adapters Cutadapt.Align
 theorem locateSound_of_ok (a : Adapter) (hok : AdapterOK a) (flags : Nat) :
     LocateSound (alignerCfg a flags) a.seq.length := by
   intro ref query as ae rs re sc e hlen h
-  refine locate_sound (alignerCfg a flags) ref query ⟨?_, hok.thr_mono, ?_⟩ h
+  refine locate_sound (alignerCfg a flags) ref query ⟨?_, hok.thr_ok.mono, ?_⟩ h
   · simp only [alignerCfg, mkCfg, indelCost]; split <;> decide
   · rw [hlen]; rfl
 
 /-- `prefilter_safe_partial` without the soundness hypothesis -/
 theorem prefilter_safe_partial_unconditional (a : Adapter) (hok : AdapterOK a) (read beyond : Bytes)
-    (hread : ∀ c ∈ read, c ≠ 0 ∧ c < 128)
-    (hfrag : (isAnchored a.ty = true ∧ a.indels = false) ∨ matchTo a read = none ∨
-             (internalType a.ty = true ∧ ∀ mt, matchTo a read = some mt → mt.astart = 0 ∧ mt.astop = a.seq.length)) :
-    matchToFiltered a read beyond = matchTo a read :=
-  prefilter_safe_partial a hok (locateSound_of_ok a hok (flagsOf a)) read beyond hread hfrag
+    (hdom : safeDomain a read = true) : matchToFiltered a read beyond = matchTo a read :=
+  prefilter_safe_partial a hok (locateSound_of_ok a hok (flagsOf a)) read beyond hdom
 
 end Cutadapt.C07
